@@ -67,7 +67,8 @@ PROPS["C16"] = dict(
 PROPS["C15"] = dict(
     harness="c15_objects", flavour="asan",
     quick=dict(workers=8, cases=40000, min_nontrivial=500),
-    thorough=dict(workers=16, cases=3000000, min_nontrivial=5000, budget_s=3000),
+    thorough=dict(workers=16, cases=3000000, min_nontrivial=5000, budget_s=3000,
+                  fuzz=dict(target="f15_objects", runs=100000, jobs=8, max_len=164)),
     rule="Stateful/model-based: command histories (length 0-30, whole-sequence shrinking) over a pool of 4 slots of one "
          "class out of Vector, SparseMatrixCOO, SparseMatrixCSR, SparseLUSolver, SymmetricTridiagonalSolver (cyclic and "
          "not), DiagonalSolver; commands construct / default-construct / set entry / solve / copy-construct / copy-assign "
@@ -109,7 +110,8 @@ PROPS["C17"] = dict(
 PROPS["C18"] = dict(
     harness="c18_gridgen", flavour="asan",
     quick=dict(workers=8, cases=24000, min_nontrivial=200),
-    thorough=dict(workers=16, cases=400000, min_nontrivial=1000, budget_s=3000),
+    thorough=dict(workers=16, cases=400000, min_nontrivial=1000, budget_s=3000,
+                  fuzz=dict(target="f18_gridfiles", runs=200000, jobs=8, max_len=600)),
     rule="PolarGrid(R0,Rmax,nr_exp,ntheta_exp,refinement_radius,anisotropic_factor,divideBy2) with nr_exp 0..7, "
          "ntheta_exp -1..9, anisotropic_factor -1..nr_exp+1, divideBy2 0..3, R0/Rmax 1e-8..0.5, refinement radius 0 "
          "(command-line default), R0, Rmax, -1, 2*Rmax, 1%/2%/98%/99% into the domain, or uniform inside; max-level caps "
